@@ -1072,6 +1072,27 @@ func runC03(c *Ctx) {
 			}
 			c.check(good, fn, "EINTR return", r.Pos(), "interrupted wait reported as nil/ErrTimeout with count 0",
 				"a wait interrupted by a signal is reported as an error or with a non-zero count")
+			// which of the two: a bounded wait (timeout >= 0) that was interrupted has used its time - ErrTimeout; an
+			// unbounded one is simply retried by the caller - nil
+			if len(pairs) == 1 && len(fn.Params) >= 2 {
+				tprm := ssa.Value(fn.Params[len(fn.Params)-1])
+				bounded := ""
+				for _, l := range guardsOf(r.Block()) {
+					op, x, y, ok := l.cmp()
+					if !ok || stripConv(resolveCell(x)) != tprm {
+						continue
+					}
+					switch {
+					case (op == token.GEQ && isConstInt(y, 0)) || (op == token.GTR && isConstInt(y, -1)):
+						bounded = "yes"
+					case (op == token.LSS && isConstInt(y, 0)) || (op == token.LEQ && isConstInt(y, -1)):
+						bounded = "no"
+					}
+				}
+				isTimeout := isLoadOfGlobal(pairs[0][1], errTimeout)
+				okSide := bounded == "" || (bounded == "yes") == isTimeout
+				c.check(okSide, fn, "EINTR side", r.Pos(), "ErrTimeout for a bounded wait, nil for an unbounded one", "the mapping of an interrupted wait is the wrong way round: an unbounded wait (RunOne) reports a timeout that never was, and a bounded one (RunOneFor, PollOne) reports success with nothing done")
+			}
 		}
 		if eintrSeen == 0 {
 			c.bad(fn, "EINTR return", fn.Pos(), "poll no longer distinguishes EINTR: a signal would surface as an error")
